@@ -433,8 +433,17 @@ def run_tyrving(mon, ctx, job, rnd):
         dist, mult = targs[0], targs[1]
         z = bn + int(1000 / (mult * (100 if dist <= 500 else 10)) * 100)
         marks.update(range(max(0, z - 3), z + 4))
-    for n in sorted(marks):
+    raw = attach.original(f)
+    for ni, n in enumerate(sorted(marks)):
         forms = forms_time(n) if kind == 'race' else forms_len(n)
+        if ni % 5 == 2:
+            # history: refused calls (age outside the table with a hand-timed / electronic mark, an unreadable mark such as DNF,
+            # a missing age) come right before good ones for the same table; the caller catches the error and carries on
+            hand = '%d.%d' % (n // 100, (n % 100) // 10)
+            for bad in ((g, age + 40, ev, hand), (g, 3, ev, '%d' % (n // 100)), (g, age, ev, 'DNF'), (g, age + 40, ev, n / 100),
+                        (g, age, ev, hand + '.'), (g, None, ev, hand))[ni % 3::3]:
+                attach.call(raw, *bad)
+                ctx.count('eval.refused-call-before-a-good-one')
         for name, p in forms:
             attach.call(f, g, age, ev, p)
         if kind == 'race' and n % 10 == 0:
